@@ -801,6 +801,18 @@ func (c09) Gen(r *Rand, idx int, tier string) interface{} {
 	if p.Edit == "none" || p.Edit == "" {
 		p.Edit = "random"
 	}
+	// secrets that do not fit into one RSA block: the encryption fails and the error path must not leak either
+	if encrypted && r.Pct(12) {
+		over := marker(capacity + 1 + r.Intn(24))
+		if p.Remote > 0 && r.Pct(70) {
+			p.RemotePw[r.Intn(p.Remote)] = hexOf(over)
+			p.Edit += " + oversized remote password"
+		} else {
+			p.Password = hexOf(over)
+			p.Edit += " + oversized password"
+		}
+		p.Class = "MUST-FAIL"
+	}
 	if encrypted && r.Pct(25) {
 		// failing scripts: error paths must not leak either
 		es := loginEdits(true)
